@@ -11,6 +11,7 @@ package main
 // which transitions the statement forbids.
 
 import (
+	"bytes"
 	"context"
 	"crypto/sha1"
 	"encoding/hex"
@@ -240,24 +241,34 @@ type c32Repo struct {
 }
 
 type c32Member struct {
-	id     uint32
-	name   string
-	tomb   bool
-	commit time.Time
+	id      uint32
+	name    string
+	tomb    bool
+	variant string
 }
 
 type c32World struct {
-	r       *rand.Rand
-	dir     string
-	trash   string
-	scratch string
-	now0    time.Time
-	serial  int
-	repos   []*c32Repo
-	feat    map[string]bool
-	recipe  []string
-	expDocs map[string]map[uint32][]string // shard hash -> repo id -> sorted document names
-	usedIDs map[uint32]bool
+	r          *rand.Rand
+	dir        string
+	trash      string
+	scratch    string
+	now0       time.Time
+	pool       []c32Repo
+	generation string // distinguishes shards written between rounds from the initial ones
+	repos      []*c32Repo
+	feat       map[string]bool
+	recipe     []string
+	expDocs    map[string]map[uint32][]string // shard hash -> repo id -> sorted document names
+	usedIDs    map[uint32]bool
+}
+
+func (w *c32World) nameOf(id uint32) string {
+	for _, rp := range w.pool {
+		if rp.ID == id {
+			return rp.Name
+		}
+	}
+	return fmt.Sprintf("r%d", id)
 }
 
 func (w *c32World) note(format string, a ...any) {
@@ -270,52 +281,79 @@ func c32Base(name string, n int) string {
 
 func (w *c32World) newID() uint32 {
 	for {
-		id := uint32(1 + w.r.IntN(4000))
-		if !w.usedIDs[id] {
-			w.usedIDs[id] = true
-			return id
+		rp := w.pool[w.r.IntN(len(w.pool))]
+		if !w.usedIDs[rp.ID] {
+			w.usedIDs[rp.ID] = true
+			return rp.ID
 		}
 	}
 }
 
-// writeShard writes one simple shard for (id, name) to path and returns its
-// document names.
-func (w *c32World) writeShard(path string, id uint32, name string, commit time.Time) ([]string, error) {
-	w.serial++
+// Building a ShardBuilder allocates ~32 MB, so shard images are built once per
+// (repository id, name, variant) and run, and written out wherever a case needs
+// them. The image of a variant is fixed for the run; files never are shared
+// between cases.
+type c32Image struct {
+	data []byte
+	docs []string
+}
+
+var (
+	c32Images   = map[string]*c32Image{}
+	c32ImageRnd *rand.Rand
+	c32Serial   int
+)
+
+var c32Epoch = time.Date(2024, 1, 1, 0, 0, 0, 0, time.UTC)
+
+func c32ShardImage(id uint32, name, variant string) (*c32Image, error) {
+	key := fmt.Sprintf("%d|%s|%s", id, name, variant)
+	if im := c32Images[key]; im != nil {
+		return im, nil
+	}
+	c32Serial++
 	repo := &zoekt.Repository{
 		ID: id, Name: name,
-		Branches:         []zoekt.RepositoryBranch{{Name: "HEAD", Version: fmt.Sprintf("v%d", w.serial)}},
-		LatestCommitDate: commit,
+		Branches:         []zoekt.RepositoryBranch{{Name: "HEAD", Version: fmt.Sprintf("v%d", c32Serial)}},
+		LatestCommitDate: c32Epoch.Add(-time.Duration(c32ImageRnd.IntN(5000)) * time.Hour),
 		RawConfig:        map[string]string{"public": "1"},
 	}
 	b, err := index.NewShardBuilder(repo)
 	if err != nil {
 		return nil, err
 	}
-	var docs []string
-	nd := 1 + w.r.IntN(3)
+	im := &c32Image{}
+	nd := 1 + c32ImageRnd.IntN(3)
 	for k := 0; k < nd; k++ {
-		dn := fmt.Sprintf("s%d/doc%d.txt", w.serial, k)
-		content := fmt.Sprintf("%s repo %d build %d doc %d\nsecond line of %s\n", c32Marker, id, w.serial, k, name)
+		dn := fmt.Sprintf("s%d/doc%d.txt", c32Serial, k)
+		content := fmt.Sprintf("%s repo %d build %d doc %d\nsecond line of %s\n", c32Marker, id, c32Serial, k, name)
 		if err := b.Add(index.Document{Name: dn, Content: []byte(content), Branches: []string{"HEAD"}}); err != nil {
 			return nil, err
 		}
-		docs = append(docs, dn)
+		im.docs = append(im.docs, dn)
 	}
-	sort.Strings(docs)
-	tmp := path + ".c32build"
-	f, err := os.OpenFile(tmp, os.O_WRONLY|os.O_CREATE|os.O_TRUNC, 0o644)
+	sort.Strings(im.docs)
+	var buf bytes.Buffer
+	if err := b.Write(&buf); err != nil {
+		return nil, err
+	}
+	im.data = buf.Bytes()
+	c32Images[key] = im
+	return im, nil
+}
+
+// writeShard writes one simple shard for (id, name, variant) to path and returns
+// its document names.
+func (w *c32World) writeShard(path string, id uint32, name, variant string) ([]string, error) {
+	im, err := c32ShardImage(id, name, variant)
 	if err != nil {
 		return nil, err
 	}
-	if err := b.Write(f); err != nil {
-		f.Close()
+	tmp := path + ".c32build"
+	if err := os.WriteFile(tmp, im.data, 0o644); err != nil {
 		return nil, err
 	}
-	if err := f.Close(); err != nil {
-		return nil, err
-	}
-	return docs, os.Rename(tmp, path)
+	return im.docs, os.Rename(tmp, path)
 }
 
 // addSimple builds a simple shard in the index dir or the trash.
@@ -331,7 +369,7 @@ func (w *c32World) addSimple(inTrash bool, base string, id uint32, name string, 
 	if _, err := os.Stat(p); err == nil {
 		return fmt.Errorf("harness: %s/%s exists already", where, base)
 	}
-	docs, err := w.writeShard(p, id, name, w.now0.Add(-time.Duration(w.r.IntN(1000))*time.Hour))
+	docs, err := w.writeShard(p, id, name, fmt.Sprintf("%s:%s:%s", where, base, w.generation))
 	if err != nil {
 		return err
 	}
@@ -435,7 +473,7 @@ func (w *c32World) buildCompound(members []c32Member) error {
 	var desc []string
 	for i, m := range members {
 		p := filepath.Join(tmpd, fmt.Sprintf("m%d.zoekt", i))
-		d, err := w.writeShard(p, m.id, m.name, m.commit)
+		d, err := w.writeShard(p, m.id, m.name, m.variant)
 		if err != nil {
 			return err
 		}
@@ -521,7 +559,6 @@ func (w *c32World) generate() error {
 	nRepos := 2 + r.IntN(8)
 	nComp := []int{0, 1, 1, 1, 2, 2}[r.IntN(6)]
 	groups := make([][]c32Member, nComp)
-	commit := func() time.Time { return w.now0.Add(-time.Duration(r.IntN(5000)) * time.Hour) }
 	join := func(m c32Member) int {
 		g := r.IntN(nComp)
 		groups[g] = append(groups[g], m)
@@ -529,10 +566,7 @@ func (w *c32World) generate() error {
 	}
 	for i := 0; i < nRepos; i++ {
 		id := w.newID()
-		name := fmt.Sprintf("r%d", id)
-		if r.IntN(3) == 0 {
-			name = fmt.Sprintf("gh.example.com/org%d/r%d", r.IntN(3), id)
-		}
+		name := w.nameOf(id)
 		kind := w.pickKind(nComp)
 		repo := &c32Repo{ID: id, Name: name, Kind: kind}
 		w.repos = append(w.repos, repo)
@@ -547,13 +581,13 @@ func (w *c32World) generate() error {
 				err = w.addSimple(false, c32Base(name, k), id, name, w.idxTime(), w.maybeSidecar(name))
 			}
 		case "compound":
-			join(c32Member{id: id, name: name, commit: commit()})
+			join(c32Member{id: id, name: name, variant: "member"})
 		case "ctomb":
-			join(c32Member{id: id, name: name, tomb: true, commit: commit()})
+			join(c32Member{id: id, name: name, tomb: true, variant: "member"})
 		case "tombtwo":
 			// tombstoned in every compound shard, with different commit dates
 			for g := range groups {
-				groups[g] = append(groups[g], c32Member{id: id, name: name, tomb: true, commit: commit()})
+				groups[g] = append(groups[g], c32Member{id: id, name: name, tomb: true, variant: fmt.Sprintf("member%d", g)})
 			}
 		case "trash":
 			err = w.addTrash(id, name, false)
@@ -563,7 +597,7 @@ func (w *c32World) generate() error {
 			}
 		case "trashctomb":
 			if err = w.addTrash(id, name, r.IntN(2) == 0); err == nil {
-				join(c32Member{id: id, name: name, tomb: true, commit: commit()})
+				join(c32Member{id: id, name: name, tomb: true, variant: "member"})
 			}
 		case "renamed":
 			other := name + "-renamed"
@@ -582,14 +616,14 @@ func (w *c32World) generate() error {
 				w.feat["renamed-by-sidecar"] = true
 			default:
 				// old name inside a compound shard, new name as a simple shard
-				join(c32Member{id: id, name: name, commit: commit()})
+				join(c32Member{id: id, name: name, variant: "member"})
 				err = w.addSimple(false, c32Base(other, 0), id, other, w.idxTime(), "")
 				w.feat["renamed-compound-and-simple"] = true
 			}
 		case "dup":
 			// alive both in a simple and in a compound shard (same name): the state
 			// between a re-index and the tombstoning of the merged copy.
-			join(c32Member{id: id, name: name, commit: commit()})
+			join(c32Member{id: id, name: name, variant: "member"})
 			err = w.addSimple(false, c32Base(name, 0), id, name, w.idxTime(), "")
 		case "absent":
 			// known to the assignment only
@@ -714,22 +748,30 @@ func c32Judge(B, A *c32Snap, assigned map[uint32]bool, now time.Time, merging bo
 				}
 				switch {
 				case f.Compound:
-					cause := "unknown"
+					plain, dup, renamed := false, false, false
 					for _, e := range f.Ents {
-						if e.Tomb || e.ID == id {
-							continue
+						switch {
+						case e.Tomb || e.ID == id:
+						case !assigned[e.ID] && len(B.aliveIdx[e.ID]) > 1:
+							dup = true // the state between a re-index and the tombstoning of the merged copy
+						case !assigned[e.ID]:
+							plain = true
+						case len(B.namesIdx[e.ID]) > 1:
+							renamed = true
 						}
-						if !assigned[e.ID] {
-							cause = "unassigned co-resident"
-							break
-						}
-						if len(B.namesIdx[e.ID]) > 1 {
-							cause = "renamed co-resident"
-						}
+					}
+					cause := "unknown"
+					switch {
+					case dup && merging: // with shard merging a single compound copy would have been tombstoned
+						cause = "unassigned co-resident that is also alive in another shard"
+					case plain || dup:
+						cause = "unassigned co-resident"
+					case renamed:
+						cause = "renamed co-resident"
 					}
 					add(fmt.Sprintf("assigned repo lost/compound shard %s/cause=%s/shardMerging=%v", fate, cause, merging),
 						"assigned repository %d (%s) was alive in %s before cleanup; afterwards that shard is %s", id, c32AnyName(B.namesIdx[id]), f.Base, fate)
-				case B.Trash[f.Base] != nil && B.Trash[f.Base].Hash != f.Hash:
+				case B.Trash[f.Base] != nil && B.Trash[f.Base].Hash != f.Hash && !B.Trash[f.Base].alive(id):
 					add("assigned repo lost/shard file name shared with a trash entry of another repository",
 						"assigned repository %d (%s): shard %s is %s after cleanup; .trash held a different shard with the same file name (%s)", id, c32AnyName(B.namesIdx[id]), f.Base, fate, B.Trash[f.Base].line(".trash", true))
 				default:
@@ -796,7 +838,7 @@ func c32Judge(B, A *c32Snap, assigned map[uint32]bool, now time.Time, merging bo
 		}
 		ctx := "plain"
 		for _, f := range tf {
-			if B.Index[f.Base] != nil {
+			if B.Index[f.Base] != nil && !B.Index[f.Base].alive(id) {
 				ctx = "shard file name shared with an indexed shard of another repository"
 			}
 		}
@@ -1072,18 +1114,36 @@ func TestVerif_C32(t *testing.T) {
 	rec := kit.Open("C32")
 	defer rec.Done()
 	defer c32Quiet()()
-	n := rec.N(400, 8000)
-	for ci := 0; ci < n; ci++ {
-		c32Case(rec, ci)
+	n := rec.N(300, 4000)
+	// the repository identities of this run (shard images are cached per identity)
+	pr := rec.Rand(32)
+	c32ImageRnd = rec.Rand(33)
+	var pool []c32Repo
+	seen := map[uint32]bool{}
+	for len(pool) < 32 {
+		id := uint32(1 + pr.IntN(4000))
+		if seen[id] {
+			continue
+		}
+		seen[id] = true
+		name := fmt.Sprintf("r%d", id)
+		if pr.IntN(3) == 0 {
+			name = fmt.Sprintf("gh.example.com/org%d/r%d", pr.IntN(3), id)
+		}
+		pool = append(pool, c32Repo{ID: id, Name: name})
 	}
+	for ci := 0; ci < n; ci++ {
+		c32Case(rec, ci, pool)
+	}
+	rec.Count("shard_images_built", int64(len(c32Images)))
 }
 
 var c32Steps = []time.Duration{0, time.Minute, time.Hour, 6 * time.Hour, 23 * time.Hour, 24 * time.Hour, 24*time.Hour + time.Second, 25 * time.Hour, 49 * time.Hour}
 
-func c32Case(rec *kit.Rec, ci int) {
+func c32Case(rec *kit.Rec, ci int, pool []c32Repo) {
 	r := rec.Rand(uint64(3200000 + ci))
 	dir := filepath.Join(rec.Work, fmt.Sprintf("c%06d", ci))
-	w := &c32World{r: r, dir: filepath.Join(dir, "index"), scratch: filepath.Join(dir, "scratch"),
+	w := &c32World{r: r, pool: pool, dir: filepath.Join(dir, "index"), scratch: filepath.Join(dir, "scratch"),
 		feat: map[string]bool{}, expDocs: map[string]map[uint32][]string{}, usedIDs: map[uint32]bool{}}
 	w.trash = filepath.Join(w.dir, ".trash")
 	w.now0 = time.Date(2024, 5, 1, 12, 0, 0, 0, time.UTC).Add(time.Duration(r.IntN(1e6)) * time.Second)
@@ -1113,7 +1173,7 @@ func c32Case(rec *kit.Rec, ci int) {
 		}
 	}
 	for k := r.IntN(3); k > 0; k-- {
-		assigned[w.newID()] = true // never seen by this server
+		assigned[uint32(100000+r.IntN(1000))] = true // never seen by this server
 	}
 	var feats []string
 	for f := range w.feat {
@@ -1131,6 +1191,7 @@ func c32Case(rec *kit.Rec, ci int) {
 
 	now := w.now0
 	var history []any
+	var last *c32Snap // snapshot after the previous round, valid while the directory was not touched
 	for k := 0; k < rounds; k++ {
 		if k > 0 {
 			now = now.Add(c32Steps[r.IntN(len(c32Steps))])
@@ -1147,20 +1208,26 @@ func c32Case(rec *kit.Rec, ci int) {
 			if r.IntN(5) == 0 {
 				rp := w.repos[r.IntN(len(w.repos))]
 				base := c32Base(rp.Name, 0)
-				if _, err := os.Stat(filepath.Join(w.dir, base)); err != nil && len(c32TakeSnap(w.dir).aliveIdx[rp.ID]) == 0 {
+				w.generation = fmt.Sprintf("round%d", k)
+				if _, err := os.Stat(filepath.Join(w.dir, base)); err != nil && last != nil && len(last.aliveIdx[rp.ID]) == 0 {
 					if err := w.addSimple(false, base, rp.ID, rp.Name, now, ""); err == nil {
 						rec.Count("reindexed_between_rounds", 1)
 					}
+					last = nil
 				}
 			}
 			if r.IntN(4) == 0 {
 				_ = w.addTmp()
+				last = nil
 			}
 		}
 		ids := c32SortedIDs(assigned)
 		r.Shuffle(len(ids), func(i, j int) { ids[i], ids[j] = ids[j], ids[i] })
 
-		B := c32TakeSnap(w.dir)
+		B := last
+		if B == nil {
+			B = c32TakeSnap(w.dir)
+		}
 		msg, stack, panicked := kit.Guard(func() { cleanup(w.dir, ids, now, merging) })
 		A := c32TakeSnap(w.dir)
 		step := map[string]any{"round": k, "now": now.UTC().Format(time.RFC3339Nano), "assigned": c32SortedIDs(assigned), "shardMerging": merging,
@@ -1187,8 +1254,10 @@ func c32Case(rec *kit.Rec, ci int) {
 			findings = append(findings, j2.findings...)
 			if strings.Join(l1, "\n") != strings.Join(l2, "\n") {
 				step["after_second_identical_cleanup"] = l2
-				if c32OnlyRenamedUntombstoned(B, A, A2, assigned) {
+				if ok, renamed := c32OnlyAssignedUntombstoned(B, A, A2, assigned); ok && renamed {
 					rec.Count("second_cleanup_untombstones_renamed_assigned_repo", 1)
+				} else if ok {
+					rec.Count("second_cleanup_untombstones_assigned_repo", 1)
 				} else if len(j2.findings) == 0 {
 					findings = append(findings, c32Finding{"second identical cleanup changes the directory", c32Diff(l1, l2)})
 				}
@@ -1197,6 +1266,7 @@ func c32Case(rec *kit.Rec, ci int) {
 			}
 			A = A2
 		}
+		last = A
 		if len(findings) == 0 && k == rounds-1 {
 			findings = append(findings, w.searchDir(A)...)
 			rec.Count("directory_searcher_checked", 1)
@@ -1226,31 +1296,37 @@ func c32Case(rec *kit.Rec, ci int) {
 	}
 }
 
-// c32OnlyRenamedUntombstoned reports whether the only difference between A and A2
-// is that assigned repositories whose shards disagreed on the name in B (the
-// class the statement exempts) went from tombstoned to alive in a compound shard.
-func c32OnlyRenamedUntombstoned(B, A, A2 *c32Snap, assigned map[uint32]bool) bool {
+// c32OnlyAssignedUntombstoned reports whether the only difference between A and A2
+// is that assigned repositories went from tombstoned to alive in a compound shard
+// (the statement puts no obligation on tombstone-only repositories, so cleanup
+// may resurrect them whenever it likes). renamed says whether all of them were
+// repositories whose shards disagreed on the name in B.
+func c32OnlyAssignedUntombstoned(B, A, A2 *c32Snap, assigned map[uint32]bool) (ok, renamed bool) {
+	renamed = true
 	if len(A.Index) != len(A2.Index) {
-		return false
+		return false, false
 	}
 	patched := &c32Snap{Index: map[string]*c32File{}, Trash: A2.Trash, Other: A2.Other, TrashOther: A2.TrashOther}
 	for b, f2 := range A2.Index {
 		f1 := A.Index[b]
 		if f1 == nil || len(f1.Ents) != len(f2.Ents) {
-			return false
+			return false, false
 		}
 		g := *f2
 		g.Ents = append([]c32Ent(nil), f2.Ents...)
 		for i := range g.Ents {
 			e1 := f1.Ents[i]
-			if e1.ID == g.Ents[i].ID && e1.Tomb && !g.Ents[i].Tomb && assigned[e1.ID] && len(B.namesIdx[e1.ID]) > 1 {
+			if e1.ID == g.Ents[i].ID && e1.Tomb && !g.Ents[i].Tomb && assigned[e1.ID] {
 				g.Ents[i].Tomb = true
 				g.Meta = f1.Meta
+				if len(B.namesIdx[e1.ID]) < 2 {
+					renamed = false
+				}
 			}
 		}
 		patched.Index[b] = &g
 	}
-	return strings.Join(A.listing(), "\n") == strings.Join(patched.listing(), "\n")
+	return strings.Join(A.listing(), "\n") == strings.Join(patched.listing(), "\n"), renamed
 }
 
 func c32Diff(a, b []string) string {
